@@ -23,7 +23,7 @@ VERIF = os.path.dirname(os.path.dirname(os.path.abspath(__file__)))
 REPO = os.environ.get('VERIF_REPO', '/repo')
 WORK = os.environ.get('VERIF_WORK', '/var/tmp/verif-work')
 MIRROR = os.path.join(WORK, 'mirror')
-TARGET = os.path.join(VERIF, '.build', 'kani-target')
+TARGET = os.environ.get('VERIF_KANI_TARGET', os.path.join(VERIF, '.build', 'kani-target'))
 KANI_DIR = os.path.join(VERIF, 'contracts', 'kani')
 CRATES = ['multiboot2-common', 'multiboot2', 'multiboot2-header']
 
@@ -85,6 +85,9 @@ def build_mirror(extra_modules=None):
             continue
         for fn in sorted(os.listdir(hdir)):
             if not fn.endswith('.rs'):
+                continue
+            only = os.environ.get('VERIF_KANI_ONLY')
+            if only and f'{crate}/{fn}' not in only.split(','):
                 continue
             src = os.path.join(MIRROR, crate, 'src', fn)
             if not os.path.exists(src):
@@ -182,16 +185,98 @@ def run_harness(crate, features, harness, extra=None, timeout=None, playback=Fal
     return res
 
 
+def harness_path(spec_file, name):
+    """fully qualified harness name: the verif_kani module is a child of the
+    module that owns the source file it was appended to"""
+    stem = spec_file[:-3]
+    return ('verif_kani::' if stem == 'lib' else stem.replace('/', '::') + '::verif_kani::') + name
+
+
+TERSE_HDR = re.compile(r'^Thread (\d+): Checking harness (\S+)\.\.\.$')
+
+
+def run_group(crate, features, harnesses, extra=None, nproc=8, timeout=None, harness_timeout=None):
+    """One cargo-kani invocation for many harnesses (-j, terse output).
+    Returns {harness: result}; failed harnesses get re-run individually by the
+    caller (regular output) for check-level detail."""
+    cmd = cargo_kani_base(crate, features) + ['--exact', '-j', str(nproc), '--output-format', 'terse']
+    for h in harnesses:
+        cmd += ['--harness', h]
+    if harness_timeout:
+        cmd += ['-Z', 'unstable-options', '--harness-timeout', f'{int(harness_timeout)}s']
+    if extra:
+        cmd += extra
+    t0 = time.time()
+    try:
+        p = subprocess.run(cmd, cwd=MIRROR, capture_output=True, text=True, timeout=timeout)
+        out = p.stdout + p.stderr
+        timed_out = False
+    except subprocess.TimeoutExpired as e:
+        out = e.stdout.decode(errors='replace') if isinstance(e.stdout, bytes) else (e.stdout or '')
+        timed_out = True
+        subprocess.run(['pkill', '-f', 'cbmc'], capture_output=True)
+    wall = time.time() - t0
+    res = {}
+    cur = {}    # thread -> harness
+    block = {}  # harness -> lines
+    for line in out.split('\n'):
+        m = TERSE_HDR.match(line)
+        if m:
+            cur[m.group(1)] = m.group(2)
+            block.setdefault(m.group(2), [])
+            continue
+        m = re.match(r'^Thread (\d+): ?(.*)$', line)
+        if m and m.group(1) in cur:
+            active = cur[m.group(1)]
+            block[active].append(m.group(2))
+            cur['_last'] = active
+            continue
+        if '_last' in cur and not line.startswith(('Manual Harness Summary', 'Complete -', 'Verification failed for')):
+            block[cur['_last']].append(line)
+    for h in harnesses:
+        txt = '\n'.join(block.get(h, []))
+        r = {'harness': h, 'wall_s': round(wall, 2), 'timed_out': timed_out, 'failed': [], 'covers': [], 'undetermined': [], 'unreachable': 0}
+        m = re.search(r'\*\* (\d+) of (\d+) failed', txt)
+        r['n_checks'] = int(m.group(2)) if m else 0
+        r['n_failed'] = int(m.group(1)) if m else 0
+        m = re.search(r'VERIFICATION:- (\w+)', txt)
+        r['verdict'] = m.group(1) if m else ('TIMEOUT' if (timed_out or 'timed out' in txt.lower()) else 'ERROR')
+        m = re.search(r'Verification Time: ([0-9.]+)s', txt)
+        r['solver_s'] = float(m.group(1)) if m else None
+        m = re.search(r'\*\* (\d+) of (\d+) cover properties satisfied', txt)
+        r['covers_sat'] = (int(m.group(1)), int(m.group(2))) if m else None
+        if r['verdict'] == 'ERROR':
+            r['output_tail'] = (txt or out)[-2500:]
+        res[h] = r
+    return res
+
+
 def run_harnesses(jobs, nproc=8):
-    """jobs: list of dict(crate, features, harness, extra, timeout).  Runs them in
-    parallel subprocesses (cargo serialises its own no-op build step)."""
-    with ThreadPoolExecutor(max_workers=nproc) as ex:
-        futs = [ex.submit(run_harness, j['crate'], j.get('features'), j['harness'], j.get('extra'), j.get('timeout'))
-                for j in jobs]
-        return [f.result() for f in futs]
+    """jobs: list of dict(crate, features, harness, extra, timeout).  Groups them
+    by (crate, features, extra) and runs one parallel invocation per group; a
+    harness that does not come back SUCCESSFUL is re-run alone with the regular
+    output format to obtain the individual failed checks."""
+    groups = {}
+    for j in jobs:
+        key = (j['crate'], tuple(j['features']) if j.get('features') is not None else None, tuple(j.get('extra') or []))
+        groups.setdefault(key, []).append(j)
+    results = {}
+    for (crate, feats, extra), js in groups.items():
+        feats_l = list(feats) if feats is not None else None
+        hto = max(j.get('timeout') or 900 for j in js)
+        rg = run_group(crate, feats_l, [j['harness'] for j in js], list(extra), nproc=nproc,
+                       timeout=hto * max(1, (len(js) + nproc - 1) // nproc) + 300, harness_timeout=hto)
+        for j in js:
+            r = rg[j['harness']]
+            if r['verdict'] != 'SUCCESSFUL' or (r['covers_sat'] and r['covers_sat'][0] != r['covers_sat'][1]):
+                r2 = run_harness(crate, feats_l, j['harness'], list(extra), j.get('timeout'))
+                r2['covers_sat'] = r.get('covers_sat')
+                r = r2
+            results[j['harness']] = r
+    return [results[j['harness']] for j in jobs]
 
 
-PLAYBACK_TARGET = os.path.join(VERIF, '.build', 'kani-playback-target')
+PLAYBACK_TARGET = os.environ.get('VERIF_KANI_TARGET', os.path.join(VERIF, '.build', 'kani-target')) + '-playback'
 
 
 def playback(crate, features, harness_path, srcfile, concrete_vals):
@@ -210,7 +295,7 @@ mod verif_kani_playback {{
         let concrete_vals: Vec<Vec<u8>> = vec![
         {vals}
         ];
-        kani::concrete_playback_run(concrete_vals, super::verif_kani::{fn});
+        kani::concrete_playback_run(concrete_vals, super::verif_kani::{fn});  // sibling module of the same file
     }}
 }}
 '''
